@@ -67,6 +67,25 @@ def run(chk):
         add("[uint(string(x)) == x, string(x), uint(string(x))]", [("x", vu(u))], "OK " + vlist([vb(True), vs(str(u)), vu(u)]))
         add("int(x)", [("x", vu(u))], "OK " + vi(u) if u <= I64_MAX else "ERR Eval")
         add("double(x)", [("x", vu(u))], "OK " + vf(float(u)))
+    n_int0 = len(cases)
+    # whole seconds -> timestamp / duration, signed and unsigned, with every boundary of the two ranges and of the
+    # unsigned -> signed step (a uint above the int range is an error, never a wrapped second count)
+    T_MIN, T_MAX, D_MAX = -8334601228800, 8210266876799, 9223372036854775
+    svals = [0, 1, -1, 59, 86400, -86400, T_MIN, T_MIN - 1, T_MIN + 1, T_MAX, T_MAX + 1, T_MAX - 1, D_MAX, D_MAX + 1, -D_MAX, -D_MAX - 1,
+             I64_MAX, I64_MIN, I64_MAX - 1, I64_MIN + 1, 2 ** 31, 2 ** 32, -2 ** 31, 253402300799, 253402300800, -62135596800, -62135596801]
+    svals += [rng.randrange(T_MIN - 10 ** 6, T_MAX + 10 ** 6) for _ in range(n // 3)] + [rng.randrange(I64_MIN, I64_MAX + 1) for _ in range(n // 6)]
+    for z in svals:
+        okt = T_MIN <= z <= T_MAX
+        add("timestamp(x)", [("x", vi(z))], "OK " + vtime(z * 10 ** 9) if okt else "ERR Eval")
+        if okt:
+            add("int(timestamp(x)) == x", [("x", vi(z))], "OK b1")
+        add("duration(x)", [("x", vi(z))], "OK " + vdur(z * 10 ** 9) if -D_MAX <= z <= D_MAX else "ERR Eval")
+    usec = [0, 1, 86400, T_MAX, T_MAX + 1, T_MAX - 1, I64_MAX, I64_MAX + 1, I64_MAX + 2, U64_MAX, U64_MAX - 1, U64_MAX - 59, U64_MAX - 86399,
+            U64_MAX - 86400, U64_MAX + 1 + T_MIN, U64_MAX + T_MIN, U64_MAX + 2 + T_MIN, 2 ** 63 + T_MAX, 2 ** 64 - 2 ** 31, 2 ** 32, 2 ** 32 - 1]
+    usec += [U64_MAX - rng.randrange(0, 10 ** rng.randrange(1, 14)) for _ in range(n // 6)] + [rng.randrange(0, U64_MAX + 1) for _ in range(n // 6)] + \
+            [rng.randrange(0, T_MAX + 10 ** 6) for _ in range(n // 6)]
+    for u in usec:
+        add("timestamp(x)", [("x", vu(u))], "OK " + vtime(u * 10 ** 9) if u <= T_MAX else "ERR Eval")
     n_int = len(cases)
     # doubles
     fbits = [0, 1 << 63, 0x3ff0000000000000, 0xbff0000000000000, 0x7ff0000000000000, 0xfff0000000000000, 0x7ff8000000000000,
@@ -240,7 +259,9 @@ def run(chk):
         if ("%s %s" % (k, payload)).strip() != w:
             chk.violation("a conversion is not exact on its domain or does not reject a value outside it",
                           dict(case=c, label=lab, impl=r, expected=w))
-    chk.stream("int/uint values: string round trip, cross-signedness, to double, result types", n_int, n_int, exhaustive=False)
+    chk.stream("int/uint values: string round trip, cross-signedness, to double, result types", n_int0, n_int0, exhaustive=False)
+    chk.stream("whole seconds (int and uint, every range boundary, the top of the uint range) -> timestamp / duration and back",
+               n_int - n_int0, n_int - n_int0, exhaustive=False)
     chk.stream("double bit patterns: saturating truncation to int/uint, string round trip (reads back, shortest), result types",
                n_dbl - n_int, n_dbl - n_int, exhaustive=False, note="%d printed doubles checked for shortness" % nshort)
     chk.stream("text -> int/uint/double: signs, whitespace, exponent forms, non-ASCII, range edges", n_txt - n_dbl,
